@@ -172,37 +172,43 @@ pub fn parse_docs(attrs: &[Attribute]) -> Result<String> {
         .filter_map(|attr| attr.meta.require_name_value().ok())
         .filter(|attr| attr.path.is_ident("doc"))
         .map(|attr| match attr.value {
-            // `*/` inside the documentation would end the JSDoc block early
             Expr::Lit(ExprLit {
                 lit: Lit::Str(ref str),
                 ..
-            }) => Ok(str.value().replace("*/", "*\\/")),
+            }) => Ok(str.value()),
             _ => syn_err!(attr.span(); "doc  with non literal expression found"),
         })
         .collect::<Result<Vec<_>>>()?;
+
+    // `*/` inside the documentation (or formed where it meets the ` *` line prefix) would end the
+    // JSDoc block early
+    let escape = |body: &str| body.replace("*/", "*\\/");
 
     Ok(match doc_attrs.len() {
         // No docs
         0 => String::new(),
 
         // Multi-line block doc comment (/** ... */)
-        1 if doc_attrs[0].contains('\n') => format!("/**{}*/\n", &doc_attrs[0]),
+        1 if doc_attrs[0].contains('\n') => {
+            let body = escape(&doc_attrs[0]);
+            let pad = if body.starts_with('/') { " " } else { "" };
+            format!("/**{pad}{body}*/\n")
+        }
 
         // Regular doc comment(s) (///) or single line block doc comment
         _ => {
-            let mut buffer = String::from("/**\n");
+            let mut body = String::new();
             let mut lines = doc_attrs.iter().peekable();
 
             while let Some(line) = lines.next() {
-                buffer.push_str(" *");
-                buffer.push_str(line);
+                body.push_str(" *");
+                body.push_str(line);
 
                 if lines.peek().is_some() {
-                    buffer.push('\n');
+                    body.push('\n');
                 }
             }
-            buffer.push_str("\n */\n");
-            buffer
+            format!("/**\n{}\n */\n", escape(&body))
         }
     })
 }
